@@ -43,6 +43,13 @@ pub enum Side {
     /// transport's first flush fails: nothing is written afterwards, every call fails, the dispatch
     /// ends with the error
     SpawnedClientFlushFault,
+    /// the client run the way the examples run it (dispatch a real tokio task, cooperative budget
+    /// on, replies arriving over a tokio channel as over a tokio socket): n calls are in flight,
+    /// r of them get a reply, m more calls are begun but not yet seen by the dispatch, then - before
+    /// the dispatch runs again - every call is abandoned and the last handle is dropped. The
+    /// dispatch transmits a cancellation for every unanswered call, then closes the write side
+    /// once, writes nothing afterwards and completes with Ok (for every r in 0..=2, m in 0..=2)
+    SpawnedClientShutdown,
 }
 
 #[derive(Clone, Copy, Debug, serde::Serialize, serde::Deserialize)]
@@ -61,6 +68,14 @@ pub fn configs_many(side: Side, thorough: bool) -> Vec<BurstCfg> {
     let mut ns: Vec<usize> = vec![1, 2, 3, 4, 5, 7, 8, 9, 15, 16, 17, 18, 31, 32, 33, 34, 40, 63, 64, 65, 100, 127, 128, 129, 130, 255, 256, 257, 300];
     if thorough {
         ns.extend([511, 512, 513, 1000, 1023, 1024, 1025, 2048, 2049]);
+    }
+    if side == Side::SpawnedClientShutdown {
+        // where the cooperative budget runs out depends on the exact count: every size up to a
+        // little over one budget (128 operations = 64 drained cancellations), thorough: several
+        ns = (1..=if thorough { 600 } else { 140 }).collect();
+        ns.extend([255, 256, 257, 300, 1000]);
+        ns.sort();
+        ns.dedup();
     }
     ns.into_iter().map(|n| BurstCfg { side, n }).collect()
 }
@@ -470,6 +485,136 @@ async fn run_spawned_flush_fault(cfg: &BurstCfg, out: &mut RunOut, text: &mut St
     drop(ch);
 }
 
+#[derive(Debug, Clone, PartialEq, Eq)]
+enum WEv {
+    Req(u64),
+    Cancel(u64),
+    Close,
+}
+/// A transport that can live in a spawned task: always writable, records what is written and
+/// closed; the read side is a tokio channel (takes part in cooperative scheduling like a socket).
+struct RecMock {
+    incoming: tokio::sync::mpsc::UnboundedReceiver<Response<u32>>,
+    log: std::sync::Arc<std::sync::Mutex<Vec<WEv>>>,
+}
+impl Stream for RecMock {
+    type Item = Result<Response<u32>, std::io::Error>;
+    fn poll_next(mut self: Pin<&mut Self>, cx: &mut Context<'_>) -> Poll<Option<Self::Item>> {
+        match self.incoming.poll_recv(cx) {
+            Poll::Ready(Some(r)) => Poll::Ready(Some(Ok(r))),
+            // the peer never ends the stream in this scenario
+            Poll::Ready(None) | Poll::Pending => Poll::Pending,
+        }
+    }
+}
+impl futures::Sink<ClientMessage<u32>> for RecMock {
+    type Error = std::io::Error;
+    fn poll_ready(self: Pin<&mut Self>, _: &mut Context<'_>) -> Poll<Result<(), Self::Error>> {
+        Poll::Ready(Ok(()))
+    }
+    fn start_send(self: Pin<&mut Self>, m: ClientMessage<u32>) -> Result<(), Self::Error> {
+        let ev = match m {
+            ClientMessage::Request(r) => WEv::Req(r.id),
+            ClientMessage::Cancel { request_id, .. } => WEv::Cancel(request_id),
+            _ => return Ok(()),
+        };
+        self.log.lock().unwrap().push(ev);
+        Ok(())
+    }
+    fn poll_flush(self: Pin<&mut Self>, _: &mut Context<'_>) -> Poll<Result<(), Self::Error>> {
+        Poll::Ready(Ok(()))
+    }
+    fn poll_close(self: Pin<&mut Self>, _: &mut Context<'_>) -> Poll<Result<(), Self::Error>> {
+        self.log.lock().unwrap().push(WEv::Close);
+        Poll::Ready(Ok(()))
+    }
+}
+
+async fn run_spawned_shutdown(cfg: &BurstCfg, r: usize, m: usize, out: &mut RunOut, text: &mut String) {
+    let n = cfg.n;
+    let log = std::sync::Arc::new(std::sync::Mutex::new(Vec::new()));
+    let (replies, incoming) = tokio::sync::mpsc::unbounded_channel();
+    // keeps the read side open for the whole scenario
+    let _keep = replies.clone();
+    let mut ccfg = client::Config::default();
+    ccfg.pending_request_buffer = n + m + 1;
+    ccfg.max_in_flight_requests = n + m + 1;
+    let nc = client::new::<u32, u32, RecMock>(ccfg, RecMock { incoming, log: log.clone() });
+    let ch = nc.client;
+    let dispatch = tokio::spawn(nc.dispatch);
+    let settle = || async {
+        for _ in 0..(4 * n + 64) {
+            tokio::task::yield_now().await;
+        }
+    };
+    let t0 = std::time::Instant::now();
+    let ctx = || {
+        let mut ctx = context::current();
+        ctx.deadline = t0 + std::time::Duration::from_secs(3600);
+        ctx
+    };
+    let w = futures::task::noop_waker();
+    let mut cx = Context::from_waker(&w);
+    {
+        let mut calls = vec![];
+        for i in 0..n {
+            let mut c = Box::pin(ch.call(ctx(), i as u32));
+            if c.as_mut().poll(&mut cx).is_ready() {
+                out.machinery_error = Some("spawned shutdown: a call completed without a reply".into());
+                return;
+            }
+            calls.push(c);
+        }
+        settle().await;
+        let sent = log.lock().unwrap().iter().filter(|e| matches!(e, WEv::Req(_))).count();
+        if sent != n {
+            out.violations.push(viol("burst-not-transmitted", format!("{n} calls begun over an always-writable transport, the spawned dispatch has settled: {sent} requests were written")));
+            dispatch.abort();
+            return;
+        }
+        // everything below happens before the dispatch task runs again
+        for id in 0..r {
+            let _ = replies.send(Response { request_id: id as u64, message: Ok(0) });
+        }
+        for j in 0..m {
+            let mut c = Box::pin(ch.call(ctx(), (n + j) as u32));
+            let _ = c.as_mut().poll(&mut cx);
+            calls.push(c);
+        }
+        drop(calls);
+    }
+    drop(ch);
+    settle().await;
+    out.nontrivial = true;
+    let tag = format!("{n} calls in flight, {r} answered, {m} begun but unsent, all abandoned and the last handle dropped in one go (spawned dispatch)");
+    if !dispatch.is_finished() {
+        out.violations.push(viol("C10-shutdown-waits", format!("{tag}: the dispatch has not completed")));
+        dispatch.abort();
+    } else {
+        match dispatch.await {
+            Ok(Ok(())) => {}
+            Ok(Err(e)) => out.violations.push(viol("C10-drop-outcome", format!("{tag}: the dispatch ended with {e}"))),
+            Err(_) => out.violations.push(viol("burst-panic", format!("{tag}: the dispatch task panicked or was cancelled"))),
+        }
+    }
+    let log = log.lock().unwrap();
+    let closes = log.iter().filter(|e| **e == WEv::Close).count();
+    let first_close = log.iter().position(|e| *e == WEv::Close).unwrap_or(log.len());
+    text.push_str(&format!("r={r} m={m}: {} writes, {closes} closes, first close at {first_close}\n", log.len() - closes));
+    if closes != 1 {
+        out.violations.push(viol("C10-no-close", format!("{tag}: the write side was closed {closes} times")));
+    }
+    if first_close + 1 < log.len() {
+        out.violations.push(viol("C10-write-after-close", format!("{tag}: {} items written or closes made after the write side was closed (first: {:?})", log.len() - first_close - 1, log[first_close + 1])));
+    }
+    // every request that was written and not answered is cancelled before the close
+    let before: HashSet<u64> = log[..first_close].iter().filter_map(|e| if let WEv::Cancel(id) = e { Some(*id) } else { None }).collect();
+    let missing: Vec<u64> = log.iter().filter_map(|e| if let WEv::Req(id) = e { Some(*id) } else { None }).filter(|id| (*id as usize) >= r && !before.contains(id)).collect();
+    if !missing.is_empty() {
+        out.violations.push(viol("C10-close-before-cancel", format!("{tag}: the write side was closed before the cancellations owed for {} abandoned calls were transmitted (first: id {})", missing.len(), missing[0])));
+    }
+}
+
 async fn run_spawned_expire(cfg: &BurstCfg, out: &mut RunOut, text: &mut String) {
     use futures::{SinkExt, StreamExt};
     use std::sync::atomic::{AtomicUsize, Ordering};
@@ -663,6 +808,14 @@ pub fn run_cfg(cfg: &BurstCfg, render: bool) -> RunOut {
                 Side::ServerManyExpire => run_many_expire(cfg, &mut out, &mut text).await,
                 Side::SpawnedServerExpire => run_spawned_expire(cfg, &mut out, &mut text).await,
                 Side::SpawnedClientFlushFault => run_spawned_flush_fault(cfg, &mut out, &mut text).await,
+                Side::SpawnedClientShutdown => {
+                    for r in 0..=cfg.n.min(2) {
+                        for m in 0..=2usize {
+                            run_spawned_shutdown(cfg, r, m, &mut out, &mut text).await;
+                            out.extra_execs += 1;
+                        }
+                    }
+                }
                 _ => run_client(cfg, &mut out, &mut text),
             }
         }))
